@@ -207,7 +207,10 @@ def run_crit(case, ctx):
                     exp_imp = lin_mse(X_o[s:e], ys_o[s:e], d + 1)
                 else:
                     exp_imp = mse
-                if exp_imp is not None and not close(imp, exp_imp, atol):
+                # the linear criterion works on residuals: a common offset of the targets does not cost it the digits the
+                # sum-of-squares formula of the constant criteria loses, so it is held to a slack relative to the residuals
+                catol = atol if not (name == "linear" and tkind == "offset") else 1e-4 * (1.0 + (exp_imp or 0.0))
+                if exp_imp is not None and not close(imp, exp_imp, catol):
                     ctx.violation(K + "node-impurity%s" % ("/" + wkind if wkind != "unit" else ""),
                                   "range [%d,%d): impurity %r, expected %r" % (s, e, imp, exp_imp), cfg=cfg)
                 per_pos = []
@@ -227,7 +230,8 @@ def run_crit(case, ctx):
                     else:
                         el, er = ml, mr
                     for side, g, x in (("left", left, el), ("right", right, er)):
-                        if x is not None and not close(g, x, atol):
+                        if x is not None and not close(g, x, atol if not (name == "linear" and tkind == "offset")
+                                                       else 1e-4 * (1.0 + x)):
                             ctx.violation(K + "children-impurity/%s%s" % (side, "/" + wkind if wkind != "unit" else ""),
                                           "triple (%d,%d,%d): %s impurity %r, expected %r" % (s, pos, e, side, g, x),
                                           cfg=cfg)
